@@ -1723,6 +1723,18 @@ func (m *Mon) stepRestart(sc *StepCtx, si stepInfo) {
 			m.fail(sc, "C09", "created-only-by-call", "restart", "context %.16s appears at a zero-height restart", id)
 		}
 	}
+	// nothing fails at a restart: no binding is slashed, disabled or otherwise touched
+	m.eval("C04")
+	for bk, b := range pre.Bindings {
+		pb, ok := post.Bindings[bk]
+		m.hit("C04", "no-failure-no-slash", "restart")
+		if ok && (!coinsAmt(pb.Deposit).Equal(coinsAmt(b.Deposit)) || pb.Available != b.Available || !pb.DisabledTime.Equal(b.DisabledTime)) {
+			m.fail(sc, "C04", "no-failure-no-slash", "restart", "binding %q went from deposit %s available=%v to deposit %s available=%v across a zero-height restart although no request failed", bk, coinsAmt(b.Deposit), b.Available, coinsAmt(pb.Deposit), pb.Available)
+		}
+	}
+	if !post.Supply.Equal(pre.Supply) {
+		m.fail(sc, "C04", "burn", "restart", "total supply went %s -> %s across a zero-height restart", pre.Supply, post.Supply)
+	}
 	// withdrawal addresses are owners' standing instructions: they survive a restart
 	for o, a := range pre.Withdraw {
 		if post.Withdraw[o] != a {
